@@ -33,9 +33,10 @@ def run(ctx):
         eg, ebb, et = ent[0]
         pred = lambda x: result_of(P, x, ('call', eg.id, ebb))
         for bb, t in eg.calls():
-            if callee_is(t, 'hash_map::VacantEntry::insert', 'DelayQueue::insert', 'AbortHandle::new_pair', 'HashMap::insert', 'hash_map::OccupiedEntry::insert'):
+            if callee_is(t, 'hash_map::VacantEntry::insert', 'DelayQueue::insert', 'AbortHandle::new_pair', 'HashMap::insert', 'hash_map::OccupiedEntry::insert',
+                         'DelayQueue::reset', 'DelayQueue::reset_at', 'DelayQueue::remove', 'DelayQueue::try_remove', 'AbortHandle::abort', 'hash_map::OccupiedEntry::remove'):
                 R.ob('C08.vacant', ('server table insert', 'effect only on Vacant', t['callee'].split('::')[-1] + '@' + t['callee'].split('::')[-2]), bool(guarded_by_variant(F, P, eg, bb, pred, ['Vacant'])),
-                     'the entry, its timer and its abort pair are created only when the id is not already in flight', [eg.loc(t)])
+                     'the entry, its timer and its abort pair are created (and nothing of an existing request is touched) only when the id is not already in flight', [eg.loc(t)])
         vi = [(bb, t) for bb, t in eg.calls() if callee_is(t, 'hash_map::VacantEntry::insert')]
         R.ob('C08.vacant', ('server table insert', 'stores on Vacant'), len(vi) == 1, 'a fresh id is stored', [eg.loc(t) for _, t in vi] or [ins.loc(ins.d)])
         bad = [(bb, t) for bb, t in eg.calls() if callee_is(t, 'hash_map::OccupiedEntry::insert', 'HashMap::insert', 'hash_map::Entry::or_insert', 'hash_map::Entry::and_modify', 'hash_map::OccupiedEntry::get_mut')]
@@ -107,6 +108,40 @@ def run(ctx):
         ok = arm is not None and cfg.all_paths_pass(pn, arm, set(cfg.exits(pn)) | {tp[0][0]}, set(regs))
     R.ob('C08.yield', ('<BaseChannel as Stream>::poll_next', 'every request read is registered'), ok,
          'every path from the Request arm of the message just read goes through the registration (no request is silently discarded before the id lookup)', [pn.loc(pn.d)])
+
+    # (2b) "only a request whose id is still in flight may be ignored": a Cancel read from the transport takes effect before the next message is read —
+    # the removal is called in the Cancel arm itself with the id just read, on every path from the arm to the next read / return.  (Deferring it through a
+    # queue lets a Request that reuses the id, read next, be dropped as a duplicate of a request the peer had already cancelled.)
+    cs = S.cancel_sites
+    ok = bool(cs)
+    if ok and len(tp) == 1:
+        carm = None
+        for i, b in enumerate(pn.blocks):
+            if b['cleanup'] or b['term']['k'] != 'switch':
+                continue
+            d_ = b['term']['discr']
+            if d_['k'] not in ('copy', 'move'):
+                continue
+            tt = P.operand(pn, d_, at=i)
+            if tt[0] != 'discr':
+                continue
+            ety = None
+            for st_ in b['stmts']:
+                if st_['rv']['k'] == 'discr':
+                    ety = st_['rv'].get('ty')
+            if not ety or 'ClientMessage' not in ety:
+                continue
+            rs = P.root(tt[1])
+            if rs and all(P.unbound(r) == item for r, _ in rs):
+                from .common import variant_values
+                vals = variant_values(F, ety, ['Cancel'])
+                if vals:
+                    carm = dict((v, x) for v, x in b['term']['targets']).get(vals[0], b['term']['otherwise'])
+        in_pn = {bb for g, bb, t, m_ in cs if g.id == pn.id}
+        ok = carm is not None and bool(in_pn) and cfg.all_paths_pass(pn, carm, set(cfg.exits(pn)) | {tp[0][0]}, in_pn)
+    R.ob('C08.cancel', ('<BaseChannel as Stream>::poll_next', 'a Cancel read from the transport is applied before the next message is read'), ok,
+         'every path from the Cancel arm of the message just read calls the table\'s aborting removal with that id before the transport is read again or the poll returns',
+         [g.loc(t) for g, _, t, _ in cs] or [pn.loc(pn.d)])
 
     # (3) typestate
     ex = S.execute
